@@ -26,17 +26,19 @@ type rtFault struct {
 }
 
 type rtCase struct {
-	Cfg     sessCfg       `json:"cfg"`
-	Writers int           `json:"writers"`
-	Msgs    int           `json:"msgs_per_writer"`
-	Feed    int           `json:"peer_messages"`
-	Faults  []rtFault     `json:"faults"`
-	Close   bool          `json:"close_at_random_time"`
-	CloseAt time.Duration `json:"close_after,omitempty"`
-	Yield   bool          `json:"writers_yield"`
+	Cfg       sessCfg       `json:"cfg"`
+	Writers   int           `json:"writers"`
+	Msgs      int           `json:"msgs_per_writer"`
+	Feed      int           `json:"peer_messages"`
+	Faults    []rtFault     `json:"faults"`
+	Close     bool          `json:"close_at_random_time"`
+	CloseAt   time.Duration `json:"close_after,omitempty"`
+	Yield     bool          `json:"writers_yield"`
+	Retry     int           `json:"writer_gives_up_after_errors"`
+	UnderLoad bool          `json:"close_under_write_load,omitempty"`
 }
 
-func genRT(r *rand.Rand) rtCase {
+func genRT(r *rand.Rand, underLoad bool) rtCase {
 	c := rtCase{}
 	c.Cfg = sessCfg{Budget: pick(r, 2, 5, 5), Interval: pick(r, 200*time.Microsecond, time.Millisecond, 3*time.Millisecond), GivenTID: r.Intn(2) == 0}
 	c.Writers = 1 + r.Intn(16)
@@ -58,12 +60,24 @@ func genRT(r *rand.Rand) rtCase {
 		f.Steps = append(f.Steps, dialStep{Latency: pick(r, 0, 0, 500*time.Microsecond), CloseNotice: f.Notice})
 		c.Faults = append(c.Faults, f)
 	}
-	if r.Intn(3) == 0 {
+	c.UnderLoad = underLoad
+	c.Retry = 2
+	if underLoad {
 		c.Close = true
-		c.CloseAt = time.Duration(r.Intn(15000)) * time.Microsecond
+		c.Yield = r.Intn(4) == 0
+		c.CloseAt = time.Duration(r.Intn(3000)) * time.Microsecond
+		c.Msgs = 1 << 20 // the writers write until the transport refuses
+		c.Cfg.CloseLat = pick(r, 0, 100*time.Microsecond, 500*time.Microsecond, 2*time.Millisecond)
+		c.Cfg.WriteLat = pick(r, 0, 20*time.Microsecond, 100*time.Microsecond)
+		c.Retry = pick(r, 2, 10, 40)
+	} else if r.Intn(3) == 0 {
+		c.Close = true // after the writers are done, while the peer and the fault injector may still be active
+		c.CloseAt = time.Duration(r.Intn(2000)) * time.Microsecond
 	}
 	return c
 }
+
+var rtFired atomic.Int32
 
 func waitUntil(d time.Duration, cond func() bool) bool {
 	dl := time.Now().Add(d)
@@ -78,15 +92,29 @@ func waitUntil(d time.Duration, cond func() bool) bool {
 
 func TestC18StressRT(t *testing.T) {
 	e := vrun.LoadEnv()
-	meta := vrun.Meta{Property: "C18", Workload: "TestC18StressRT", Total: e.Pick(300, 4000),
+	meta := vrun.Meta{Property: "C18", Workload: "TestC18StressRT", Total: e.Pick(800, 30000),
 		Rule: "Real clock, real parallelism (GOMAXPROCS as is, 8 cases at a time): 1-16 writers x 20-99 tagged messages in tight loops, a peer feeding 30-179 messages (~25% pings), " +
 			"1-6 failures {underlying read error now, underlying write error after k writes} injected one after the other while traffic runs, each with 0..budget-1 dial/handshake errors, " +
-			"optional dial latency and close-notice delay, ReconnectInterval {0.2,1,3} ms, budget {2,5}; one third of the cases call Close at a random moment (possibly during a redial). " +
+			"optional dial latency and close-notice delay, ReconnectInterval {0.2,1,3} ms, budget {2,5}; one third of the cases call Close after the writers finished while the peer and the fault injector are still active (possibly during a redial). " +
 			"Oracles 1-4 only (exactly-once acceptance, order, redial parameters, reads/pings); the budget is never exhausted here. Non-trivial: >=1 redial and accepted writes on >=2 connections " +
 			"or a Close. Distinct: the generated scenario.",
-		Assumptions: append([]string{"Real-time workload: waiting for quiescence uses wall-clock watchdogs (30 s); a watchdog firing yields inconclusive, never a verdict."}, vtAssumptions[:5]...)}
+		Assumptions: append([]string{"Real-time workload: waiting for quiescence uses wall-clock watchdogs (15 s); a watchdog firing yields inconclusive, never a verdict."}, vtAssumptions[:5]...)}
 	vrun.Loop(t, meta, 0, func(c *vrun.Case) vrun.Result {
-		rc := genRT(c.Rng)
+		rc := genRT(c.Rng, false)
+		return runRT(rc, c.Rng.Int63())
+	})
+}
+
+// TestC18CloseUnderLoadRT: Close at a random moment while 1-16 writers hammer the transport (possibly during a redial).
+// A workload of its own because on the unchanged tree this input class can kill the process (see TestC18CloseMidBurst).
+func TestC18CloseUnderLoadRT(t *testing.T) {
+	e := vrun.LoadEnv()
+	meta := vrun.Meta{Property: "C18", Workload: "TestC18CloseUnderLoadRT", Total: e.Pick(600, 15000),
+		Rule: "Scenario generator of TestC18StressRT, but the writers write until the transport refuses (giving up after 2/10/40 errors), underlying Close takes 0-2 ms and underlying Write 0-0.1 ms, and every case calls Close 0-3 ms after the start while the writers are writing and failures are being injected " +
+			"(Close may land in the middle of a redial). Oracles 1-4 on the prefix; after Close returned no Write may return nil. Non-trivial: Close ran and writes were accepted. Distinct: the generated scenario.",
+		Assumptions: append([]string{"Real-time workload: waiting for quiescence uses wall-clock watchdogs (15 s); a watchdog firing yields inconclusive, never a verdict."}, vtAssumptions[:5]...)}
+	vrun.Loop(t, meta, 0, func(c *vrun.Case) vrun.Result {
+		rc := genRT(c.Rng, true)
 		return runRT(rc, c.Rng.Int63())
 	})
 }
@@ -97,8 +125,14 @@ func runRT(rc rtCase, seed int64) vrun.Result {
 	if err != nil {
 		return vrun.Inconcl("initial Dial failed: " + err.Error())
 	}
-	const wd = 30 * time.Second
+	// generous while the process behaves; once several cases of this process hit the watchdog (a broken library makes
+	// every case hang) the remaining ones get a short leash - they are inconclusive either way
+	wd := 15 * time.Second
+	if rtFired.Load() >= 8 {
+		wd = time.Second
+	}
 	inconcl := func(what string) vrun.Result {
+		rtFired.Add(1)
 		dump := vrun.AllStacks()
 		if len(dump) > 30000 {
 			dump = dump[:30000]
@@ -120,7 +154,7 @@ func runRT(rc rtCase, seed int64) vrun.Result {
 			defer wg.Done()
 			defer writersLeft.Add(-1)
 			errs := 0
-			for i := 0; i < rc.Msgs && errs < 2; i++ {
+			for i := 0; i < rc.Msgs && errs < rc.Retry; i++ {
 				if s.rec.write(s.tr, w, i) != nil {
 					errs++
 				}
@@ -194,6 +228,9 @@ func runRT(rc rtCase, seed int64) vrun.Result {
 		}
 	}()
 	if rc.Close {
+		if !rc.UnderLoad && !waitUntil(wd, func() bool { return writersLeft.Load() == 0 }) {
+			return inconcl("the writers to finish")
+		}
 		time.Sleep(rc.CloseAt)
 		if ok, _ := vrun.Watchdog(wd, s.closeNow); !ok {
 			return inconcl("Close to return")
